@@ -100,6 +100,10 @@ func (r *SwitchRouter) Validate(flow flows.Flow, exits []flows.Exit) error {
 	}
 
 	for _, c := range r.cases {
+		if c == nil {
+			return fmt.Errorf("cases can't be null")
+		}
+
 		// check each case points to a valid category
 		if !r.isValidCategory(c.CategoryUUID) {
 			return fmt.Errorf("case category %s is not a valid category", c.CategoryUUID)
